@@ -33,6 +33,40 @@ def scene_from_kinds(kinds, tie=False):
     return {"policy": "DEFAULT", "results": res}
 
 
+def doc_label_ok(policy, el, gl):
+    """MatchingLabelPolicy as documented, on the label NAMES the scene was generated with (not is_label_correct)"""
+    if gl is None:
+        return False
+    if gl == "false_positive" or policy == "ALLOW_ANY":
+        return True
+    if policy == "ALLOW_UNKNOWN":
+        return el == gl or el == "unknown"
+    return el == gl
+
+
+def doc_facts(case, fs):
+    """the facts with label compatibility and the label's threshold stated from the CASE (scene policy and label names, target list and
+    threshold list: the threshold of a result is the entry at the position of its ground truth's label -- the estimate's label without
+    ground truth -- in the target list), independent of is_label_correct / get_label_threshold"""
+    out = []
+    for f in fs:
+        lab = f["gt_label"] if f["has_gt"] else f["est_label"]
+        thr = case["thresholds"][case["targets"].index(lab)] if lab in case["targets"] else None
+        out.append(dict(f, lab_ok=doc_label_ok(case["scene"]["policy"], f["est_label"], f["gt_label"]), thr=thr))
+    return out
+
+
+def facts_disagree(case, fs):
+    for f, d in zip(fs, doc_facts(case, fs)):
+        if bool(f["lab_ok"]) != d["lab_ok"]:
+            return (f"result {f['rid']}: is_label_correct = {f['lab_ok']} for estimate label {f['est_label']} / ground-truth label {f['gt_label']} "
+                    f"under {case['scene']['policy']} (documented: {d['lab_ok']})")
+        if f["thr"] != d["thr"]:
+            return (f"result {f['rid']}: get_label_threshold = {f['thr']} for label {f['gt_label'] if f['has_gt'] else f['est_label']} with targets "
+                    f"{case['targets']} / thresholds {case['thresholds']} (documented: {d['thr']})")
+    return None
+
+
 class ApCorr(Corr):
     name = "ap"
     header = HEADER
@@ -120,7 +154,11 @@ class ApCorr(Corr):
             if nm not in obs:
                 continue
             o = obs[nm]
-            ref, tps, n_tp = A.ref_ap(o["facts"], mx, n, unit_weight=(nm == "ap"))
+            # "TP iff label-compatible and beats the label's threshold": both stated from the case, not read through the result objects
+            msg = facts_disagree(case, o["facts"])
+            if msg:
+                return msg
+            ref, tps, n_tp = A.ref_ap(doc_facts(case, o["facts"]), mx, n, unit_weight=(nm == "ap"))
             if (ref is None) != (o["ap"] is None):
                 return f"{nm}: definedness differs (expected {'undefined' if ref is None else float(ref)}, got {o['ap']})"
             if ref is None:
@@ -189,7 +227,19 @@ class MapCorr(Corr):
             targets = rng.sample(A.LABELS[:4], k)
             thresholds = [A.threshold_for(rng, mode) for _ in targets]
             extra_gt = [rng.choice(A.LABELS) for _ in range(rng.randint(0, 4))]
-            out.append({"scene": scene, "mode": mode, "targets": targets, "thresholds": thresholds, "extra_gt": extra_gt})
+            c = {"scene": scene, "mode": mode, "targets": targets, "thresholds": thresholds, "extra_gt": extra_gt}
+            if i % 4 == 1:
+                # the 2D detection path: ROI objects, Map(is_detection_2d=True) (AP only: no heading on an image) and
+                # MetricsScore.evaluate_detection of a detection2d task (centre-distance and IoU-2D Maps only, in that order,
+                # although plane-distance / IoU-3D thresholds are configured)
+                c["mode"] = mode = rng.choice(["CENTERDISTANCE", "IOU2D"])
+                c["scene"] = dict(scene, dim="2d")
+                # centre distances are in pixels (8 px per lattice step of the scene)
+                thr2 = lambda md: rng.choice([4.0, 5.0, 8.0, 10.0, 16.0, 40.0, 1.0]) if md == "CENTERDISTANCE" else A.threshold_for(rng, md)  # noqa: E731
+                c["thresholds"] = [thr2(mode) for _ in targets]
+                other = "IOU2D" if mode == "CENTERDISTANCE" else "CENTERDISTANCE"
+                c["other"] = {"mode": other, "thresholds": [thr2(other) for _ in targets]}
+            out.append(c)
         return out
 
     def run_impl(self, case):
@@ -199,24 +249,51 @@ class MapCorr(Corr):
         from perception_eval.evaluation.metrics.detection.tp_metrics import TPMetricsAp, TPMetricsAph
 
         results = A.make_results(case["scene"])
+        dim = case["scene"].get("dim", "3d")
         tl = [A.label_enum(x) for x in case["targets"]]
         gts = [r.ground_truth_object for r in results if r.ground_truth_object is not None]
-        gts += [A.make_object(A.gen_spec(__import__("random").Random(i), label=l), f"x{i}") for i, l in enumerate(case["extra_gt"])]
+        gts += [A.make_object(A.gen_spec(__import__("random").Random(i), label=l), f"x{i}", dim) for i, l in enumerate(case["extra_gt"])]
         gt_labels = [g.semantic_label.label.value for g in gts]
         buckets = divide_objects(results, tl)
         nums = divide_objects_to_num(gts, tl)
-        mp = Map(object_results_dict=buckets, num_ground_truth_dict=nums, target_labels=tl,
-                 matching_mode=MatchingMode[case["mode"]], matching_threshold_list=case["thresholds"])
+        kw = {"is_detection_2d": True} if dim == "2d" else {}
+        try:
+            mp = Map(object_results_dict=buckets, num_ground_truth_dict=nums, target_labels=tl,
+                     matching_mode=MatchingMode[case["mode"]], matching_threshold_list=case["thresholds"], **kw)
+        except Exception as e:      # a (mutated) Map may raise on a supported call: an observation, not a harness error
+            return {"error": f"Map({case['mode']}{', is_detection_2d=True' if kw else ''}) raised {type(e).__name__}: {e}"}
         fs_ap = A.facts(case["scene"], results, case["mode"], case["targets"], case["thresholds"], TPMetricsAp())
-        fs_aph = A.facts(case["scene"], results, case["mode"], case["targets"], case["thresholds"], TPMetricsAph())
         ids = {id(r): i for i, r in enumerate(results)}
-        return {
-            "facts_ap": fs_ap, "facts_aph": fs_aph, "gt_labels": gt_labels,
+        obs = {
+            "facts_ap": fs_ap, "gt_labels": gt_labels,
             "aps": [A.inf_to_none(a.ap) for a in mp.aps], "aphs": [A.inf_to_none(a.ap) for a in mp.aphs],
             "map": A.inf_to_none(mp.map), "maph": A.inf_to_none(mp.maph),
             "bucket_ids": {l.value: [ids[id(r)] for r in rs] for l, rs in buckets.items()},
             "nums": {l.value: n for l, n in nums.items()},
         }
+        if dim != "2d":
+            obs["facts_aph"] = A.facts(case["scene"], results, case["mode"], case["targets"], case["thresholds"], TPMetricsAph())
+            return obs
+        # the same buckets through MetricsScore of a detection2d task
+        from perception_eval.common.evaluation_task import EvaluationTask
+        from perception_eval.evaluation.metrics.metrics import MetricsScore
+        from perception_eval.evaluation.metrics.metrics_score_config import MetricsScoreConfig
+
+        by_mode = {case["mode"]: case["thresholds"], case["other"]["mode"]: case["other"]["thresholds"]}
+        cfg = MetricsScoreConfig(EvaluationTask.DETECTION2D, target_labels=tl, center_distance_thresholds=[list(by_mode["CENTERDISTANCE"])],
+                                 iou_2d_thresholds=[list(by_mode["IOU2D"])], plane_distance_thresholds=[[1.0] * len(tl)],
+                                 iou_3d_thresholds=[[0.5] * len(tl)])
+        ms = MetricsScore(cfg, used_frame=[0])
+        try:
+            ms.evaluate_detection(buckets, nums)
+        except Exception as e:
+            return {"error": f"MetricsScore(detection2d).evaluate_detection raised {type(e).__name__}: {e}"}
+        obs["score_maps"] = [{"mode": m.matching_mode.name, "aps": [A.inf_to_none(a.ap) for a in m.aps], "n_aphs": len(m.aphs),
+                              "map": A.inf_to_none(m.map), "maph": A.inf_to_none(m.maph), "thr": [float(t) for t in m.matching_threshold_list],
+                              "str_ok": isinstance(str(m), str)} for m in ms.maps]
+        obs["score_num_gt"] = int(ms.num_ground_truth)
+        obs["facts_other"] = A.facts(case["scene"], results, case["other"]["mode"], case["targets"], case["other"]["thresholds"], TPMetricsAp())
+        return obs
 
     @staticmethod
     def _lab(name):
@@ -226,59 +303,115 @@ class MapCorr(Corr):
         return llit([f"(mkL {A.res_lit(f, thr_override=None)} {self._lab(f['est_label'])} {olit(f['gt_label'], lambda x: str(self._lab(x)) + '%nat')})" for f in fs])
 
     def coq_term(self, case, obs):
+        if "error" in obs:
+            return "false"
         m = A.mode_lit(case["mode"])
         tg = llit([str(self._lab(x)) + '%nat' for x in case["targets"]])
         th = llit([qlit(x) for x in case["thresholds"]])
         gl = llit([str(self._lab(x)) + '%nat' for x in obs["gt_labels"]])
         t1 = f"check_map {m} {tg} {th} {gl} {self._xs(obs['facts_ap'])} {llit([olit(a, qlit) for a in obs['aps']])} {olit(obs['map'], qlit)}"
+        if "facts_aph" not in obs:          # 2D detection: no APH
+            return f"({t1})%bool"
         t2 = f"check_map {m} {tg} {th} {gl} {self._xs(obs['facts_aph'])} {llit([olit(a, qlit) for a in obs['aphs']])} {olit(obs['maph'], qlit)}"
         return f"({t1} && {t2})%bool"
 
     def coq_debug(self, case, obs):
+        if "error" in obs:
+            return None
         m = A.mode_lit(case["mode"])
         tg = llit([str(self._lab(x)) + '%nat' for x in case["targets"]])
         th = llit([qlit(x) for x in case["thresholds"]])
         gl = llit([str(self._lab(x)) + '%nat' for x in obs["gt_labels"]])
         return f"label_aps {m} {tg} {th} {gl} {self._xs(obs['facts_ap'])}"
 
-    def oracle(self, case, obs):
-        for nm, aps, mp in (("mAP", obs["aps"], obs["map"]), ("mAPH", obs["aphs"], obs["maph"])):
-            fin = [a for a in aps if a is not None]
-            if not fin:
-                if mp is not None:
-                    return f"{nm} = {mp} although no per-label AP is defined"
-                continue
-            if mp is None or abs(mp - sum(fin) / len(fin)) > 1e-9:
-                return f"{nm} = {mp} is not the mean {sum(fin) / len(fin)} of the defined per-label values {fin}"
-        # per-label AP equals the interpolated area of that label's bucket (buckets as documented)
-        mx = A.MAXIMIZE[case["mode"]]
-        for li, (lab, thr) in enumerate(zip(case["targets"], case["thresholds"])):
-            fs = [f for f in obs["facts_ap"] if (f["est_label"] == lab) or (f["est_label"] not in case["targets"] and f["gt_label"] == lab)]
-            num = sum(1 for g in obs["gt_labels"] if g == lab)
+    @staticmethod
+    def _mean_ok(nm, aps, mp):
+        fin = [a for a in aps if a is not None]
+        if not fin:
+            return f"{nm} = {mp} although no per-label AP is defined" if mp is not None else None
+        if mp is None or abs(mp - sum(fin) / len(fin)) > 1e-9:
+            return f"{nm} = {mp} is not the mean {sum(fin) / len(fin)} of the defined per-label values {fin}"
+        return None
+
+    @staticmethod
+    def _labels_ok(case, mode, thresholds, facts, gt_labels, aps, aphs):
+        """per-label AP equals the interpolated area of that label's bucket (buckets as documented)"""
+        mx = A.MAXIMIZE[mode]
+        sub = dict(case, mode=mode, thresholds=thresholds)
+        msg = facts_disagree(sub, facts)
+        if msg:
+            return msg
+        facts_ap = doc_facts(sub, facts)
+        for li, (lab, thr) in enumerate(zip(case["targets"], thresholds)):
+            fs = [f for f in facts_ap if (f["est_label"] == lab) or (f["est_label"] not in case["targets"] and f["gt_label"] == lab)]
+            num = sum(1 for g in gt_labels if g == lab)
 
             def thr_of(f, lab=lab, thr=thr):
                 return thr if (f["gt_label"] if f["has_gt"] else f["est_label"]) == lab else None
 
             ref, _, n_tp = A.ref_ap(fs, mx, num, True, thr_of)
-            got = obs["aps"][li]
+            got = aps[li]
             if (ref is None) != (got is None) or (ref is not None and abs(float(ref) - got) > 1e-9):
-                return f"AP[{lab}] = {got} but the interpolated area over that label's results is {None if ref is None else float(ref)}"
+                return f"AP[{lab}] ({mode}) = {got} but the interpolated area over that label's results is {None if ref is None else float(ref)}"
             if got is not None and n_tp <= num and not (-1e-12 <= got <= 1 + 1e-12):
                 return f"AP[{lab}] = {got} outside [0,1]"
-            if got is not None and obs["aphs"][li] is not None and obs["aphs"][li] > got + 1e-12:
-                return f"APH[{lab}] {obs['aphs'][li]} > AP {got}"
+            if aphs and got is not None and aphs[li] is not None and aphs[li] > got + 1e-12:
+                return f"APH[{lab}] {aphs[li]} > AP {got}"
+        return None
+
+    def oracle(self, case, obs):
+        if "error" in obs:
+            return obs["error"] + " on a well-formed set of buckets"
+        two_d = case["scene"].get("dim") == "2d"
+        if len(obs["aps"]) != len(case["targets"]):
+            return f"{len(obs['aps'])} per-label APs for {len(case['targets'])} target labels"
+        if two_d and (obs["aphs"] or obs["maph"] is not None):
+            return f"2D detection: APH is not defined for objects on an image, but Map reports aphs = {obs['aphs']}, mAPH = {obs['maph']}"
+        if not two_d and len(obs["aphs"]) != len(case["targets"]):
+            return f"{len(obs['aphs'])} per-label APHs for {len(case['targets'])} target labels"
+        msg = (self._mean_ok("mAP", obs["aps"], obs["map"]) or (None if two_d else self._mean_ok("mAPH", obs["aphs"], obs["maph"]))
+               or self._labels_ok(case, case["mode"], case["thresholds"], obs["facts_ap"], obs["gt_labels"], obs["aps"], obs["aphs"]))
+        if msg or not two_d:
+            return msg
+        # MetricsScore of a detection2d task: one centre-distance Map, then one IoU-2D Map, nothing else; AP only
+        sm = obs["score_maps"]
+        if [m["mode"] for m in sm] != ["CENTERDISTANCE", "IOU2D"]:
+            return (f"MetricsScore(detection2d).maps are {[m['mode'] for m in sm]}: a 2D task has one Map per configured centre-distance and IoU-2D "
+                    f"threshold list, in that order (plane distance and IoU 3D do not exist on an image)")
+        want_ngt = sum(1 for g in obs["gt_labels"] if g in case["targets"])
+        if obs["score_num_gt"] != want_ngt:
+            return f"MetricsScore.num_ground_truth = {obs['score_num_gt']} but {want_ngt} ground truths carry a target label"
+        for m in sm:
+            mine = m["mode"] == case["mode"]
+            thr = case["thresholds"] if mine else case["other"]["thresholds"]
+            if m["thr"] != [float(t) for t in thr]:
+                return f"MetricsScore Map {m['mode']} uses thresholds {m['thr']} but {thr} are configured for that mode"
+            if m["n_aphs"] or m["maph"] is not None:
+                return f"MetricsScore(detection2d) Map {m['mode']} reports {m['n_aphs']} APHs / mAPH = {m['maph']}: not defined on an image"
+            if not m["str_ok"]:
+                return "str(Map) failed"
+            if mine and (m["aps"] != obs["aps"] or m["map"] != obs["map"]):
+                return f"MetricsScore Map {m['mode']}: aps {m['aps']} / mAP {m['map']} differ from Map(...) on the same buckets: {obs['aps']} / {obs['map']}"
+            msg = (self._mean_ok("mAP", m["aps"], m["map"])
+                   or self._labels_ok(case, m["mode"], thr, obs["facts_ap"] if mine else obs["facts_other"], obs["gt_labels"], m["aps"], []))
+            if msg:
+                return "MetricsScore(detection2d): " + msg
         return None
 
     def nontrivial(self, case, obs):
-        return sum(a is not None for a in obs["aps"]) >= 1 and len(case["scene"]["results"]) >= 2
+        return "error" not in obs and sum(a is not None for a in obs["aps"]) >= 1 and len(case["scene"]["results"]) >= 2
 
     def describe(self, case, obs):
         return {"case": {k: v for k, v in case.items() if k != "scene"}, "n_results": len(case["scene"]["results"]),
-                "observed": {k: obs[k] for k in ("aps", "aphs", "map", "maph", "nums")}}
+                "observed": {k: obs.get(k) for k in ("aps", "aphs", "map", "maph", "nums", "error")}}
 
     def distribution(self, cases, obs):
-        d = {"n_targets": {}, "map_undefined": 0, "some_label_undefined": 0}
+        d = {"n_targets": {}, "map_undefined": 0, "some_label_undefined": 0, "detection2d_map_and_metrics_score": 0, "detection2d_ap_defined": 0}
         for c, o in zip(cases, obs):
+            if "aps" not in o:
+                continue
+            d["detection2d_map_and_metrics_score"] += c["scene"].get("dim") == "2d"
+            d["detection2d_ap_defined"] += c["scene"].get("dim") == "2d" and any(a is not None and a > 0 for a in o["aps"])
             k = str(len(c["targets"]))
             d["n_targets"][k] = d["n_targets"].get(k, 0) + 1
             d["map_undefined"] += o["map"] is None
@@ -303,8 +436,14 @@ class C04(Prop):
                   "'#TP <= #GT' is a hypothesis here (it follows from C01/C03 for the frame pipeline).")
     rule = ("exhaustive: every ranking over {TP, TP with heading off by pi/2, FP, ignored} up to length 4 (quick) / 6 (thorough) x several GT counts; "
             "random: scenes of 0-14 (some 30-120) results on the k/8 lattice with confidence ties, FP-labelled and unknown GT, scores exactly on the threshold; "
+            "Map stream: every fourth case a 2D detection case (ROI objects, Map(is_detection_2d=True): AP only, no APH / mAPH; the same buckets through "
+            "MetricsScore.evaluate_detection of a detection2d task: exactly one centre-distance and one IoU-2D Map although plane-distance / IoU-3D "
+            "thresholds are configured); oracle: label compatibility (policy on the generated label names) and the label's threshold (index of the "
+            "label in the target list) are stated from the case and compared with is_label_correct / get_label_threshold on every result; "
             "non-trivial = at least 2 results and a defined AP")
-    assumptions = ["scores compared within 1e-9 (binary64 rounding of cumsum/division)", "facts read through public getters of the real objects"]
+    assumptions = ["scores compared within 1e-9 (binary64 rounding of cumsum/division)",
+                   "matching value and heading weight are read through public getters of the real objects (C06/C09); label compatibility and "
+                   "thresholds are additionally derived from the case in the oracle"]
     not_proved = ["that #TP <= #GT in a frame (hypothesis here; C01/C03)", "binary64 rounding"]
 
     def correspondences(self):
